@@ -106,7 +106,7 @@ def fam_options(tier):
     big = force or romf
     if quick and big and limit == 0:
       continue
-    bs = 'CFRE' if big else 'CFXKRSEI'
+    bs = 'CFRE' if big else 'CFXKRSEIJ'
     ms = ('p', 'f') if big else ('p', 'f', 'u')
     o = opts(runif=runif, limit=limit, force=force, romf=romf, somf=somf)
     for pos, _ in _positions(None, None):
@@ -122,7 +122,7 @@ def fam_table(tier):
   """C05: the single-invocation outcome table: behaviour x measurement x
   diagnoser codes x stop_on_measurement_fail x position x settings"""
   out = []
-  bs = 'CFXKRSEGI'
+  bs = 'CFXKRSEGIJ'
   ds = [('0',), ('a',), ('B',), ('!',)]
   for somf in (False, True):
     for pos in ('top', 'subtest', 'teardown'):
@@ -147,7 +147,7 @@ def fam_ladder(tier):
   shapes = [f for n in range(0, 3) for f in forests(n, frozenset('PU'))]
   for sof, unset, fexc in itertools.product((False, True), repeat=3):
     for f in shapes:
-      out.append(program(instantiate(f, Maker(beh('CFSEGK', ('n',)))), sof=sof, unset=unset,
+      out.append(program(instantiate(f, Maker(beh('CFSEGKJ', ('n',)))), sof=sof, unset=unset,
                          fexc=fexc))
     for f in shapes[:4]:
       out.append(program(instantiate(f, Maker(beh('CK', ('p', 'f', 'u')),
@@ -183,6 +183,26 @@ def fam_groups(maxn, bs='CSEXF', kinds='PGU', need_td=True):
       if 'G' not in str(f):
         continue
       out.append(program(instantiate(f, Maker(beh(bs)))))
+  return out
+
+
+def fam_teardown_nesting():
+  """C02/C03: every kind of node nested in the teardown of a group that sits in
+  a subtest which fails in main (or earlier in teardown): teardown mode is
+  inherited ("This also applies to all nested phase nodes")"""
+  out = []
+  P = lambda n, b='C': phase(n, beh(b))
+  p0 = lambda: phase('p0', beh('C', ds=[('0',), ('a',)]), ndiag=1)
+  for mainb in ('CX', 'CF', 'CE'):
+    for v in range(4):
+      on, rs = BRANCH_VARIANTS[v]
+      kind, action = CKPT_VARIANTS[v]
+      td = [branch('b1', on, rs, [P('tb')]), ckpt('k1', kind, action, rs=('a',)),
+            seq([P('tq')]), subtest('s2', [P('ts', 'CX'), P('ts2')]),
+            group('g2', [P('tgs')], [P('tgm', 'CE')], [P('tgt')]), P('tlast')]
+      out.append(program([p0(), subtest('s1', [P('a', 'CX'), group('g1', [P('su')], [P('m', mainb)], td), P('b')]),
+                          P('z')]))
+      out.append(program([p0(), group('g1', [], [P('m', mainb)], [P('t0', 'CE')] + td), P('z')]))
   return out
 
 
@@ -448,7 +468,7 @@ def replay_chunk(args):
   for (o,) in hists:
     prog = plist[o['p'] - 1]
     use_sched = (needs_sched(o['calls']) or bool((extra or {}).get('force_sched')) or
-                 any(v == 'hang' for v in prog['plugspec']['tdmode'].values()))
+                 any(v in ('hang', 'hardhang') for v in prog['plugspec']['tdmode'].values()))
     g = build.run_program(prog, o['calls'], use_sched=use_sched, timeout_s=5 if use_sched else None)
     bad = compare(o, g, prog)
     out['n'] += 1
@@ -506,7 +526,7 @@ def replay_file(path, owned, pid, families_fn):
     sc = json.load(fh)['scenario']
   fams = dict(families_fn(sc.get('tier', 'quick')))
   prog = fams[sc['family']][sc['shard'] * shard_size(len(fams[sc['family']])) + sc['prog_index']]
-  use_sched = needs_sched(sc['calls']) or any(v == 'hang' for v in prog['plugspec']['tdmode'].values())
+  use_sched = needs_sched(sc['calls']) or any(v in ('hang', 'hardhang') for v in prog['plugspec']['tdmode'].values())
   g = build.run_program(prog, sc['calls'], use_sched=use_sched, timeout_s=5 if use_sched else None)
   print('real observation: outcome=%s ret=%s crashed=%s' % (g.get('oc'), g.get('ret'), g.get('crashed')))
   print('calls:', [(c['n'], c['att'], c['b']) for c in g.get('calls', [])])
